@@ -3,8 +3,8 @@ package main
 import (
 	"bytes"
 	"fmt"
-	"io"
 	origfmt "fmt"
+	"io"
 	"strings"
 	"unicode/utf8"
 
@@ -717,6 +717,86 @@ func streamBuffer(rep *Report, tier string, seed uint64) {
 				} else {
 					bldCase(randOps(r, bldA, 40), emit)
 				}
+			}
+		})
+}
+
+// streamSplits: C10's last clause on the real buffer. A payload is written in one
+// Write and in 2-4 pieces cut at arbitrary byte positions (inside markers and
+// multi-byte runes included), after a filler that places the cut on either side
+// of the storage growth steps; the finished redactable must not depend on the cut.
+func streamSplits(rep *Report, tier string, seed uint64) {
+	n := 30000
+	if tier == "thorough" {
+		n = 600000
+	}
+	alpha := append(append([][]byte{}, alphaE...), []byte("‹"), []byte("›"), []byte("é"), []byte("世"))
+	RunStream(rep, "E-splits", false, "payloads of <=14 symbols after 0-300 filler bytes, written whole and in 2-4 pieces, unsafe and safe mode, ManualBuffer and StringBuilder", true, 16,
+		func(sh, ns int, emit func(Case)) {
+			r := NewRng(seed*1000 + 77 + uint64(sh))
+			for i := 0; i < n/ns; i++ {
+				var fill int
+				switch r.Intn(4) {
+				case 0:
+					fill = r.Intn(12)
+				case 1:
+					fill = 50 + r.Intn(20)
+				case 2:
+					fill = 110 + r.Intn(30)
+				default:
+					fill = r.Intn(300)
+				}
+				pay := randBytes(r, alpha, 14)
+				total := append(bytes.Repeat([]byte("a"), fill), pay...)
+				total = append(total, randBytes(r, alpha, 3)...)
+				mode := r.Intn(2)
+				// cut points, biased into the payload
+				k := 1 + r.Intn(3)
+				cuts := map[int]bool{}
+				for j := 0; j < k; j++ {
+					c := r.Intn(len(total) + 1)
+					if len(pay) > 0 && r.Chance(75) {
+						c = fill + r.Intn(len(pay)+1)
+					}
+					cuts[c] = true
+				}
+				whole := []bop{{tag: "m", n: mode}, {tag: "w", p: total, n: r.Intn(2)}}
+				split := []bop{{tag: "m", n: mode}}
+				last := 0
+				for c := 0; c <= len(total); c++ {
+					if cuts[c] || c == len(total) {
+						split = append(split, bop{tag: "w", p: total[last:c], n: r.Intn(2)})
+						last = c
+					}
+				}
+				var aw, as string
+				var fw, fs []byte
+				pm := safely(func() { aw, fw = execBuf(whole); as, fs = execBuf(split) })
+				var orc []string
+				if pm != "" {
+					orc = append(orc, "C11:ManualBuffer write sequence panicked: "+pm)
+				} else if !bytes.Equal(fw, fs) {
+					orc = append(orc, fmt.Sprintf("C10:result depends on how the payload was split: whole %q, pieces %q (%s)", fw, fs, opsLine("buf", split)))
+				}
+				// the same through a StringBuilder (UnsafeString / SafeString pieces)
+				tag := "us"
+				if mode == 1 {
+					tag = "ss"
+				}
+				var bw, bs []bop
+				bw = append(bw, bop{tag: tag, p: total})
+				for _, o := range split[1:] {
+					bs = append(bs, bop{tag: tag, p: o.p, n: o.n})
+				}
+				var gw, gs []byte
+				pm2 := safely(func() { _, gw = execBld(bw); _, gs = execBld(bs) })
+				if pm2 != "" {
+					orc = append(orc, "C11:StringBuilder write sequence panicked: "+pm2)
+				} else if !bytes.Equal(gw, gs) {
+					orc = append(orc, fmt.Sprintf("C10:StringBuilder result depends on how the payload was split: whole %q, pieces %q", gw, gs))
+				}
+				emit(Case{Line: opsLine("buf", whole), Real: aw, Nontriv: hasMarker(pay), Kind: "split:whole"})
+				emit(Case{Line: opsLine("buf", split), Real: as, Oracle: orc, Nontriv: hasMarker(pay), Kind: fmt.Sprintf("split:%dpieces", len(split)-1)})
 			}
 		})
 }
